@@ -210,6 +210,8 @@ pub fn qsieve(
     }
     let sieved = s_fwd.offset + s_bck.offset;
     let mut rels = qs.rels.into_inner().unwrap();
+    #[cfg(yamaquasi_verif)]
+    crate::relations::verif_hooks::observe_final(&rels);
     if prefs.verbose(Verbosity::Info) {
         rels.log_progress(format!(
             "Sieved {:.1}M",
